@@ -83,7 +83,12 @@ def from_numpy(
     def recurse(array, mask):
         if regulararray and len(array.shape) > 1:
             return ak.layout.RegularArray(
-                recurse(array.reshape((-1,) + array.shape[2:]), mask),
+                recurse(
+                    array.reshape(
+                        (array.shape[0] * array.shape[1],) + array.shape[2:]
+                    ),
+                    mask,
+                ),
                 array.shape[1],
                 array.shape[0],
             )
